@@ -197,6 +197,8 @@ def machine_spec(draw, profile="general", tier="quick"):
             asg.append([draw(pool_no(pools)), draw(st.integers(0, npipes - 1)), draw(st.integers(0, 3)),
                         list(draw(cpu_spec if profile != "oom" else st.tuples(st.just("abs"), st.integers(1, 2)))),
                         list(draw(ram_spec(profile))), bad])
+            if multi and profile in ("suspend", "general") and draw(st.integers(0, 5)) == 0:
+                asg[-1].append(draw(st.integers(0, npipes - 1)))     # mix: one operator of another pipeline in the same container
         # a deliberate inadmissible command in about one step of 12 (an episode ends at its first rejection)
         if draw(st.integers(0, (11 if not (sus and asg) else 5) if profile != "huge" else 4)) == 0:
             if asg and (profile == "huge" or draw(st.booleans())):
@@ -453,7 +455,9 @@ class Episode:
         ctor_reject = None
         taken = {}            # template -> next op index already handed out this tick
         release_fault_pools = set()
-        for pool, pi, nops, cpuspec, ramspec, bad in asg_cmds:
+        for cmd in asg_cmds:
+            pool, pi, nops, cpuspec, ramspec, bad = cmd[:6]
+            mix = cmd[6] if len(cmd) > 6 else None
             m = self.mp[pool]
             ramspec_is_over = False
             # sizes
@@ -569,6 +573,20 @@ class Episode:
                 self.instantiate(pi, max(cpu, 1), ram)
             mpipe, rp, rops, ops_real = self.pipes[pi]
             ops = rops[lo:hi]
+            extra, extra_specs = [], []
+            if (mix is not None and bad is None and self.spec["multi"] and mix != pi and mix not in taken
+                    and self.spec["pipes"][pi].get("group") is None and self.spec["pipes"][mix].get("group") is None):
+                # one operator of ANOTHER pipeline packed behind this pipeline's operators in the same container
+                if mix not in self.pipes:
+                    self.instantiate(mix, max(cpu, 1), ram)
+                mpipe2, _rp2, rops2, ops_real2 = self.pipes[mix]
+                st2 = mpipe2.assignable_from()
+                if st2 is not None:
+                    ops = ops + [rops2[st2]]
+                    extra = [(mpipe2, st2)]
+                    extra_specs = ops_real2[st2:st2 + 1]
+                    mix_taken = (mix, st2 + 1)
+                    out.label("container_mixing_two_pipelines")
             if bad == "no_ops":
                 ops = []
             if bad in ("zero_cpu", "zero_ram", "no_ops", "completed_op", "running_op"):
@@ -610,13 +628,16 @@ class Episode:
                 continue
             for i in range(lo, hi):
                 mpipe.states[i] = "assigned"
-            batch_by_pool[pool].append((cpu, ram, hi - lo, ramspec[0] == 'all' and not batch_by_pool[pool]))
-            plans = make_plans(ops_real[lo:hi], cpu, self.tps)
+            for p2_, i2_ in extra:
+                p2_.states[i2_] = "assigned"
+                taken[mix_taken[0]] = mix_taken[1]
+            batch_by_pool[pool].append((cpu, ram, hi - lo + len(extra), ramspec[0] == 'all' and not batch_by_pool[pool]))
+            plans = make_plans(ops_real[lo:hi] + extra_specs, cpu, self.tps)
             if plans is None:
                 out.skipped = "ambiguous_plan"
                 self.ended = "skip"
                 return
-            new_by_pool[pool].append((MContainer(None, pool, mpipe, range(lo, hi), cpu, ram, plans, self.tps), bad))
+            new_by_pool[pool].append((MContainer(None, pool, mpipe, range(lo, hi), cpu, ram, plans, self.tps, extra), bad))
             new_by_pool[pool][-1][0].real_ops = list(ops)
             if getattr(mpipe, "was_suspended", False):
                 out.label("reassigned_after_suspension")
